@@ -12,3 +12,6 @@ ASSUMPTIONS = [K.A_BYTEORDER, K.A_BYTES, K.A_TABLE, K.A_PRED]
 OBLIGATIONS = [K.WIG_TILING, K.WIG_ZOOM_STAT, K.ZOOM_SECTION_W, K.ZOOM_BLOCK_R, K.ZOOM_KEEP, K.ZOOM_OFFSETS, K.INDEX_PAIRS, K.READER_COMMON[4], K.WRITER_LAYOUT[0], K.WRITER_LAYOUT[1], K.ZOOM_LIST]
 OBLIGATIONS = OBLIGATIONS + [K.EVERY_VALUE]
 OBLIGATIONS = OBLIGATIONS + [K.ARG_NAMES]
+OBLIGATIONS = OBLIGATIONS + [K.ZOOMCOUNT_SIBS]
+OBLIGATIONS = OBLIGATIONS + [K.PROCESSOR_ARGS]
+OBLIGATIONS = OBLIGATIONS + [K.PROCESS_DATA]
